@@ -269,6 +269,31 @@ example :
     s 1 = some (1, 118) ∧ ClocksAgree (118 + cfg.U) cmds ∧ NotReleasedBy 1 1 cmds ∧
       run cfg s cmds 1 = some (1, 122) := by decide
 
+/-! ## Snapshots -/
+
+/-- **A replica rebuilt from a snapshot has exactly the locks of the replica the snapshot was taken from**
+(`_deserialize (_serialize s)` into any instance, whatever it was created with and whatever it held): same
+table, same auto-unlock time, hence the same state after any further commands and the same answers -- so
+every statement above about `stateAfter (log.take p)` also holds for a replica that reached position `p`
+through a dump file or the leader's snapshot. -/
+theorem snapshot_roundtrip_keeps_locks (cfg cfg' : Cfg) (s s' : Table) (hv : cfg'.mono = cfg.mono) :
+    rebuild cfg s cfg' s' = (cfg, s) ∧
+    (∀ cmds, run (rebuild cfg s cfg' s').1 (rebuild cfg s cfg' s').2 cmds = run cfg s cmds) ∧
+    (∀ l c now, isAcquired (rebuild cfg s cfg' s').1 (rebuild cfg s cfg' s').2 l c now = isAcquired cfg s l c now) := by
+  have h : rebuild cfg s cfg' s' = (cfg, s) := by
+    cases cfg; cases cfg'
+    simp only [rebuild, deserialize, serialize] at *
+    simp_all
+  refine ⟨h, ?_, ?_⟩ <;> intros <;> rw [h]
+
+/-- non-vacuity / what would go wrong: the receiving instance was created with another auto-unlock time and
+holds a stale lock; after the rebuild it has the holder's lock with time 104 and U = 10. -/
+example :
+    let cfg : Cfg := { U := 10 }
+    let s := stateAfter cfg [.acquire 1 1 100, .prolongate 1 104]
+    let r := rebuild cfg s { U := 3 } (stateAfter { U := 3 } [.acquire 1 2 50, .acquire 7 7 7])
+    r.1.U = 10 ∧ r.2 1 = some (1, 104) ∧ r.2 7 = none ∧ (acquire r.1 r.2 1 2 110).2 = false := by decide
+
 /-! ## Release -/
 
 /-- **Releasing a lock one does not hold has no effect**: the whole table is unchanged. -/
